@@ -15,7 +15,7 @@ def sh(cmd, **kw):
 
 
 def demo(n):
-    e = dict(os.environ, PYTHONPATH=f"{wt}/src")
+    e = dict(os.environ, PYTHONPATH=f"{wt}/src", PYTHONHASHSEED="0")  # some demos compare hash-ordered lists
     p = subprocess.run([PY, f"{wt}/demo{n}.py"], env=e, stdout=subprocess.PIPE, stderr=subprocess.STDOUT, text=True, timeout=600, cwd="/tmp")
     return p.returncode, p.stdout[-400:]
 
